@@ -1,9 +1,16 @@
 (* C15 runner.  Evaluates the extracted predicate Hooks.holds_C15 on every crash-point
-   observation and "the hook returned" on every environment case, classifies failures by the
-   extracted KF classes (Hooks.kf_C15_1 / _3 / _4 on the unit / inputs, Sweep.kf_C15_2 on the sweep
-   inputs the harness printed - never on error strings), and cross-checks the regenerated table:
-   Hooks.table_says_wrapped unit must agree with where the harness saw the unit's store accesses
-   (inside an ApplyFuncIfNoError instance or not), and the sweep model must predict the slice panic. *)
+   observation and on every unit projection (unitobs: Hooks.trigger_obs_diff classifies "the unit
+   reported failure" + the changes of what it writes into nothing / complete / partial), "the hook returned" on every environment
+   case, and cross-checks the model:
+   - Hooks.table_says_wrapped unit must agree with where the harness saw the unit's store accesses
+     (inside an ApplyFuncIfNoError instance or not);
+   - Sweep.slice_panics_stored (the model of GetSliceStartEndForLiquidations + the reset step + the
+     int() conversions + the slice expression) must predict exactly the panics of the sweeps' slice
+     expressions, on the inputs the harness printed - never on error strings.  In a case the harness
+     declares FABRICATED (the vault counter set directly through the keeper: an unreachable state,
+     outside the property's quantifier) an agreed panic is model validation only: no predicate
+     failure, no finding.  In every other case a panic of a hook is a predicate failure outside
+     every known class, and the reachability assumption counter <= capacity is itself checked. *)
 open Conv
 
 let coq_string (s : string) : String.string =
@@ -19,8 +26,10 @@ let run (path : string) =
   let cases = ref 0 and steps = ref 0 and nontrivial = ref 0 in
   let case = ref "" and kind = ref "" and csig = ref "" in
   let case_work = ref false in
-  (* last sweep line: cap counter off batch present *)
-  let sweep : (string, (BinNums.coq_Z * BinNums.coq_Z * BinNums.coq_Z * BinNums.coq_Z * bool)) Hashtbl.t = Hashtbl.create 4 in
+  let fabricated = ref false in
+  (* sweep lines of the current hook: cap counter off batch (stored uint64 values) *)
+  let sweep : (string, (string * BinNums.coq_Z * BinNums.coq_Z * BinNums.coq_Z * BinNums.coq_Z)) Hashtbl.t = Hashtbl.create 4 in
+  let zle a b = Z.leq (zz_of_z a) (zz_of_z b) in
   let end_case () =
     if !case <> "" then begin
       incr cases;
@@ -30,35 +39,48 @@ let run (path : string) =
   L.iter (fun line ->
       match tokens line with
       | "case" :: id :: "env" :: st :: fault :: _ ->
-        end_case (); case := id; kind := "env"; csig := "env " ^ st ^ " " ^ fault; case_work := false;
+        end_case (); case := id; kind := "env"; csig := "env " ^ st ^ " " ^ fault; case_work := false; fabricated := false;
         Hashtbl.reset sweep; bump ("fault:" ^ fault)
       | "case" :: id :: "crash" :: hook :: st :: _ ->
-        end_case (); case := id; kind := "crash"; csig := "crash " ^ hook ^ " " ^ st; case_work := false;
+        end_case (); case := id; kind := "crash"; csig := "crash " ^ hook ^ " " ^ st; case_work := false; fabricated := false;
         bump ("crash:" ^ hook)
-      | "sweep" :: hook :: cap :: counter :: off :: batch :: present :: _ ->
-        Hashtbl.replace sweep hook (z_of_string cap, z_of_string counter, z_of_string off, z_of_string batch, bool_of_tok present)
+      | "fabricated" :: what :: _ ->
+        fabricated := true; bump ("fabricated:" ^ what)
+      | "sweep" :: hook :: which :: cap :: counter :: off :: batch :: _ ->
+        Hashtbl.add sweep hook (which, z_of_string cap, z_of_string counter, z_of_string off, z_of_string batch)
       | "hook" :: name :: cls :: changed :: at :: _ ->
         incr steps; bump ("hook:" ^ cls);
         if changed = "1" then case_work := true;
-        let sw = Hashtbl.find_opt sweep name in
-        (* the model's prediction for the unwrapped slice expression *)
-        (match sw with
-         | Some (cap, counter, off, batch, present) when present ->
-           let predicted = Sweep.kf_C15_2 cap counter off batch in
-           if predicted && cls <> "panic" then
-             mismatch ~case:!case ~step:!steps ~field:("slice[" ^ name ^ "]") ~model:"panic" ~impl:cls
-         | _ -> ());
+        let sws = Hashtbl.find_all sweep name in
+        while Hashtbl.mem sweep name do Hashtbl.remove sweep name done;
+        (* the model's prediction for the unwrapped slice expressions of this hook *)
+        let predicted = L.exists (fun (_, cap, counter, off, batch) -> Sweep.slice_panics_stored cap counter off batch) sws in
+        if sws <> [] then bump (if predicted then "slice:model-panics" else "slice:model-in-range");
+        (* the reachability assumption of the sweep theorem, checked on every state the harness did not fabricate *)
+        if not !fabricated then
+          L.iter (fun (which, cap, counter, _, _) ->
+              if not (zle counter cap) then
+                predfail ~case:!case ~step:!steps ~pred:"counter_le_capacity" ~kf:"none"
+                  ~detail:(Printf.sprintf "%s_%s_counter=%s_cap=%s" name which (string_of_z counter) (string_of_z cap))) sws;
+        if predicted && cls <> "panic" then
+          mismatch ~case:!case ~step:!steps ~field:("slice[" ^ name ^ "]") ~model:"panic" ~impl:cls;
         if cls = "panic" then begin
-          let kf = (match sw with
-              | Some (_, _, _, _, present) when Hooks.kf_C15_4 present -> "kf_C15_4"
-              | Some (cap, counter, off, batch, _) when Sweep.kf_C15_2 cap counter off batch -> "kf_C15_2"
-              | _ ->
-                (* the panic arose inside the per-item function of a unit the table lists as unwrapped *)
-                if at <> "-" && not (Hooks.table_says_wrapped (coq_string at)) && Hooks.kf_C15_1 (coq_string at) then "kf_C15_1"
-                else if at <> "-" && not (Hooks.table_says_wrapped (coq_string at)) && Hooks.kf_C15_3 (coq_string at) then "kf_C15_3"
-                else "none") in
-          predfail ~case:!case ~step:!steps ~pred:"hook_returns" ~kf ~detail:(name ^ "_panicked_in_" ^ at)
+          if !fabricated then begin
+            if predicted then bump "validated:slice-panic-on-fabricated-counter"
+            else mismatch ~case:!case ~step:!steps ~field:("slice[" ^ name ^ "]") ~model:"in-range" ~impl:"panic"
+          end else
+            predfail ~case:!case ~step:!steps ~pred:"hook_returns" ~kf:"none" ~detail:(name ^ "_panicked_in_" ^ at)
         end
+      | "unitobs" :: unit :: failed :: dcoll :: dnet :: dlocked :: dauction :: dactive :: _ ->
+        incr steps;
+        let f = bool_of_tok failed in
+        let diff = Hooks.trigger_obs_diff f (z_of_string dcoll) (z_of_string dnet) (z_of_string dlocked) (z_of_string dauction) (z_of_string dactive) in
+        bump ("unitobs:" ^ unit ^ (if f then ":reported-failure" else ":no-failure") ^ ":diff" ^ string_of_z diff);
+        if string_of_z diff <> "0" then case_work := true;
+        if not (Hooks.holds_C15 true diff true) then
+          predfail ~case:!case ~step:!steps ~pred:"holds_C15" ~kf:"none"
+            ~detail:(Printf.sprintf "unit=%s_partial_writes_visible_failed=%s_dcoll=%s_dnet=%s_dlocked=%s_dauction=%s_dactive=%s"
+                       unit failed dcoll dnet dlocked dauction dactive)
       | "probe" :: m :: wraps :: cls :: _ ->
         incr steps;
         if cls = "panic" then
@@ -73,8 +95,7 @@ let run (path : string) =
         if says <> seen then
           mismatch ~case:!case ~step:!steps ~field:("wrapped[" ^ unit ^ "]") ~model:(tok_of_bool says) ~impl:(tok_of_bool seen);
         if not (Hooks.holds_C15 (bool_of_tok returned) (z_of_string diff) (bool_of_tok others)) then begin
-          let kf = if Hooks.kf_C15_1 u then "kf_C15_1" else if Hooks.kf_C15_3 u then "kf_C15_3" else "none" in
-          predfail ~case:!case ~step:!steps ~pred:"holds_C15" ~kf
+          predfail ~case:!case ~step:!steps ~pred:"holds_C15" ~kf:"none"
             ~detail:(Printf.sprintf "unit=%s_k=%s_returned=%s_diff=%s_others=%s" unit k returned diff others)
         end
       | _ -> ()) lines;
